@@ -2,13 +2,13 @@ from checks.common import *
 import os, re, json, hashlib, subprocess
 
 SPEC = {
-    "translators": ["gen_prec", "gen_emit", "gen_fold"],
+    "translators": ["gen_prec", "gen_emit", "gen_foldfacts"],
     "bins": ["c02"],
     "model_targets": ["Cond/Check.vo"],
     "proof_targets": ["Cond/SemProofs.vo", "Cond/RuleSetProofs.vo", "Cond/PrecProofs.vo", "Cond/QuirksProofs.vo", "Cond/MachineProofs.vo", "Cond/RunsProofs.vo", "Cond/EmitProofs.vo"],
     "assumptions": [
         "the meaning of conditions is the evaluator coq/Cond/Sem.v, hand-written from conditions.md / undefined_values.md / global_and_private.md; where these are silent it follows the implementation and says [undocumented] (64-bit wrap-around, truncated division, shift counts >= 64 / negative, P% = ceil(n*P/100), empty or undefined ranges make a for..in false, lexicographic string order, anchors of an `of` evaluated per item)",
-        "floats, regular expressions (`matches`), modules, arrays/maps, .len(), int-as-bool casts, `bool == integer`, KB/MB suffixes, non-ASCII strings are not generated and not modelled",
+        "floats, regular expressions (`matches`), modules, arrays/maps, .len(), int-as-bool casts, `bool == integer`, KB/MB suffixes are not generated and not modelled; the case-insensitive string operators beyond ASCII follow the implementation [undocumented: conditions.md only says `case-insensitive`]: both operands lower-cased with the Unicode mapping of each character (bstr to_lowercase: no final-sigma rule, U+0130 becomes i + U+0307, invalid UTF-8 kept) and compared as bytes - modelled for ASCII, U+00C0..U+00DE, U+0391..U+03A9 and U+0130, the alphabet the generator draws from; floats are only pinned by one commutativity probe",
         "run-time quantifiers N < 0 and constant shapes rejected by the compiler are not generated; range loops are generated with at most a few hundred iterations (neither emit.rs nor the model has an iteration cap; the model builds the list of all iterations)",
         "patterns are plain literal text patterns; their occurrences are computed by the model's own naive search (overlapping occurrences included), not taken from the implementation",
         "rule sets use consecutive blocks of distinct namespaces; conditions that make the implementation panic (WASM traps, property C05) are counted in the distribution and excluded",
